@@ -17,7 +17,11 @@ DRIVE_TYPES = ["document", "presentation", "spreadsheets"]
 
 
 def is_amp_url(url):
-    splitted = safe_urlsplit(url)
+    try:
+        splitted = safe_urlsplit(url)
+    except ValueError:
+        return False
+
     hostname = splitted.hostname or ""
 
     if hostname.endswith(".ampproject.org"):
@@ -42,7 +46,10 @@ def is_amp_url(url):
 
 
 def is_google_link(url):
-    splitted = safe_urlsplit(url)
+    try:
+        splitted = safe_urlsplit(url)
+    except ValueError:
+        return False
 
     if not splitted.hostname or "google." not in splitted.hostname:
         return False
@@ -130,7 +137,10 @@ class GoogleDrivePublicLink(GoogleDriveParsedItem):
 
 
 def parse_google_drive_url(url):
-    splitted = safe_urlsplit(url)
+    try:
+        splitted = safe_urlsplit(url)
+    except ValueError:
+        return None
 
     if "docs.google.com" not in splitted.netloc:
         return None
